@@ -6,7 +6,10 @@ CHECK = {'level': 'exploration',
          'found the entry; hold the reply before delivery until the timer fired; cancel the context before delivery; plain sleeps), duplicates before/'
          'after the real reply, error replies, context cancellation early / around the deadlines / anywhere, unsolicited responses. Non-trivial = at '
          'least 8 requests overlapped AND at least one reply was handled before its requester started to wait or for an attempt whose timer fired '
-         '(both known from schedule-point events, not from clocks). Distinct by digest of the whole workload.',
+         '(both known from schedule-point events, not from clocks). Distinct by digest of the whole workload. One case in five is of the class "stalled peer": 1-2 black-hole peers (silent TCP listeners on loopback '
+         'dialled as libp2p peers: opening the stream blocks until the context is cancelled after 2-6 timeouts or libp2p\'s 5 s local dial timeout) addressed by 1-5 '
+         'of the calls, 30-120 calls to healthy peers whose handler answers within 2 ms, timeout 150-300 ms, 8-24 workers; non-trivial there = at least 8 requests '
+         'overlapped AND healthy calls overlapped a stalled send of their own node AND were judged (no late process heartbeat during the call).',
  'level_text': 'Generated concurrent request/response workloads between real libp2p hosts with hook-ordered races; every call must return its own '
                'token or an error, hook-ordered replies must not be dropped, handler runs <= retries+1 per call, no pending entry after quiescence, no '
                'goroutine parked in onResponse (goroutine dump). Schedules are steered at three points, not enumerated; the Go scheduler is not owned.',
@@ -15,7 +18,10 @@ CHECK = {'level': 'exploration',
  'technique': 'property-based testing (rapid) of concurrent histories with schedule-point steering and invariant/correlation oracles',
  'assumptions': ['dropped replies are observed through the "unknown request ID" warning of onResponse (custom logger); if its text changes only the '
                  'lost-reply signal is lost', 'duplicates carry the same payload as the real reply (the layer cannot tell a forged reply with a valid ID apart)',
-                 'rate limiting is disabled through WithRPCMessageCounter (belongs to C18)'],
+                 'rate limiting is disabled through WithRPCMessageCounter (belongs to C18)',
+                 'stalled-peer class: "reply not delivered in time" is measured in heartbeats of a goroutine of the test process (>= 20 beats between the handler\'s '
+                 'answer and the requester\'s timer), skipped for calls during which a beat was late (> 50 ms), and counts only when the same scenario shows it 3 of 3 '
+                 'times; otherwise inconclusive'],
  'quick': [{'pkg': 'c17', 'checks': 60, 'timeout': 1800, 'shrinktime': '6s'}],
  'thorough': [{'pkg': 'c17', 'checks': 800, 'shards': 12, 'timeout': 2400, 'gomaxprocs': 4, 'shrinktime': '6s'},
               {'pkg': 'c17', 'race': True, 'checks': 200, 'shards': 4, 'timeout': 2400, 'gomaxprocs': 4, 'shrinktime': '6s'}]}
